@@ -133,7 +133,7 @@ func c03ClosuresCase(tier string, idx int) *c03Case {
 
 const (
 	nLoopKinds    = 8
-	nLoopExits    = 7
+	nLoopExits    = 9
 	nLoopPlaces   = 4
 	nLoopPreludes = 3
 )
@@ -202,6 +202,10 @@ func c03LoopsCase(tier string, idx int) *c03Case {
 		st = append(st, ifThen(hs.V("f"), retStmt(R, 0)))
 	case 6: // break and return
 		st = append(st, ifThen(hs.V("f"), retStmt(R, 0)), &hs.Break{})
+	case 7: // a break of the outer loop FOLLOWED by a nested loop (no outer break after it)
+		st = append(st, ifThen(hs.V("f"), &hs.Break{}), &hs.Loop{Body: hs.Blk(nil, &hs.Break{})}, ifThen(hs.V("f"), &hs.Continue{}))
+	case 8: // the same with two nested loops and a nested while
+		st = append(st, ifThen(hs.Un("!", hs.V("f")), &hs.Break{}), &hs.Loop{Body: hs.Blk(nil, &hs.Loop{Body: hs.Blk(nil, &hs.Break{})}, &hs.Break{})}, &hs.While{Cond: hs.V("f"), Body: hs.Blk(nil, &hs.Break{})})
 	}
 	body := hs.Blk(nil, st...)
 	loop := mk(body)
